@@ -464,6 +464,14 @@ def run(pid, tier, seed, only_case=None):
         behaviours.append([["call", "make_contractions"], ["call", "make_contractions"], ["raise", "bad_make_contractions"], ["call", "make_contractions"]])
         behaviours.append([["call", "overlap"], ["mutate", "S1", 2], ["call", "overlap"], ["assign_norm", "S1"], ["call", "overlap"],
                            ["mutate", "S1", 1], ["assign_norm", "S1"], ["call", "overlap"], ["call", "kinetic"], ["call", "esp"], ["call", "esp"]])
+        # the same request reached along two histories, for every function of the shells: first use after a parameter update
+        # and renormalisation, and the same with an earlier use of the function on the old parameters (memo tables keyed by
+        # object identity or by part of the parameters answer the second from the first)
+        for s_ in SHELLS:
+            users = [f for f in allf if f not in RAISES and s_ in FUNCS[f]]
+            upd = [["mutate", s_, 2], ["assign_norm", s_]]
+            behaviours.append(upd + [["call", f] for f in users])
+            behaviours.append([["call", f] for f in users] + upd + [["call", f] for f in users] + [["mutate", s_, 3]] + [["call", f] for f in users])
     out = common.pmap(execute, [(n, b, seed) for n, b in enumerate(behaviours)])
     traces = []
     nev = 0
